@@ -69,7 +69,7 @@ def claims_of(r):
 
 
 def run_one(sub, prog, runtime, budget):
-    I1, a1, pm = lt.explore_process_message(prog, runtime, budget)
+    I1, a1, pm = lt.explore_process_message(prog, runtime, budget, loop_status=(2, 4))
     sub.absorb(I1)
     sub.paths += len(pm)
     tag = 'dequeue.%s.p%d' % (runtime, budget)
